@@ -47,10 +47,14 @@ type ReplayFile struct {
 		Signature string `json:"signature"`
 		TraceHash string `json:"trace_hash"`
 	} `json:"expect"`
-	BySeed bool     `json:"by_seed,omitempty"`
-	Detail string   `json:"detail,omitempty"`
-	World  string   `json:"world,omitempty"`
-	Steps  []string `json:"steps,omitempty"`
+	BySeed bool `json:"by_seed,omitempty"`
+	// HistoryFrom: replay needs the process history (package-global state such
+	// as a sync.Pool carried over from earlier runs of the same worker): run
+	// indices HistoryFrom..RunIndex-1 are re-executed from their seeds first.
+	HistoryFrom *int     `json:"history_from,omitempty"`
+	Detail      string   `json:"detail,omitempty"`
+	World       string   `json:"world,omitempty"`
+	Steps       []string `json:"steps,omitempty"`
 }
 
 func envInt(name string, def int) int {
@@ -182,6 +186,13 @@ func TestWorker(t *testing.T) {
 		if r.BySeed {
 			// crash-type findings cannot hand back their tape; re-record from the seed
 			mk = fams[idx%len(fams)]
+			if r.HistoryFrom != nil {
+				for i := *r.HistoryFrom; i < idx; i++ {
+					runStarted.Store(time.Now().UnixNano())
+					RunOnce(t, fams[i%len(fams)], NewRecordingTape(runSeed(r.BaseSeed, prop, i)), RunOpts{})
+				}
+			}
+			runStarted.Store(time.Now().UnixNano())
 			_ = enc.Encode(runLine{Start: &idx})
 			out.Flush()
 			res := RunOnce(t, mk, NewRecordingTape(runSeed(r.BaseSeed, prop, idx)), RunOpts{KeepTrace: true})
